@@ -60,6 +60,7 @@ def monitor(tr, which):
                 fail('setFlowLimits succeeded for a caller without the operator role')
         if kind == 'pause' and ok: paused = op['paused']
         if kind == 'transferOp' and ok: operator = op['a']
+        if kind == 'acceptOp' and ok: operator = op['caller']
         if kind == 'setTrusted' and ok: trusted[op['chain']] = op['a']
         if kind == 'removeTrusted' and ok: trusted.pop(op['chain'], None)
         # ---- gateway approvals
